@@ -3,6 +3,9 @@
   tools/debug_case.py C11 thorough 1 5077 [hook.py]
 The hook file is exec'd with env, check, res in scope."""
 import os, sys
+if os.environ.get('PYTHONHASHSEED') != '0':      # the runner's workers run with hash seed 0: same history only then
+  os.environ['PYTHONHASHSEED'] = '0'
+  os.execv(sys.executable, [sys.executable] + sys.argv)
 V = os.path.dirname(os.path.dirname(os.path.abspath(__file__)))
 sys.path.insert(0, V)
 from vlib import framework as fw, boot
